@@ -18,8 +18,17 @@
 (*                             the end                                                                         *)
 (*   planner_parser_json.go, planner_parser_regexp.go, planner_drop.go, planner_label_filter.go  map functions *)
 (*   planner_main_order_by.go, planner_main_limit.go  ORDER BY timestamp_ns <dir> LIMIT n around everything    *)
+(*   planner_main_renew.go     a parser stage followed by a non-parser stage closes the SELECT block; inside   *)
+(*                             one block WHERE .. labels['x'] .. sees the labels ALIAS of the block            *)
+(*   logql_parser model_v2.go  `| json != "x"` is read as a label filter on a label named json                 *)
 (*   planner.go (GetBreakpoint / breakScript)  a `json` stage without parameters and everything after it run   *)
 (*                             in the Go engine (internal_planner), whose LimitPlanner takes the first n rows  *)
+(* Metric queries (C08), second half of the module: LRAPlanner / UnwrapFunctionPlanner / the metrics_15s       *)
+(* shortcut, ComparisonPlanner, ByWithoutPlanner + AggOpPlanner, TopKPlanner, StepFixPlanner, and the Go       *)
+(* post-processors ZeroEaterPlanner and FixPeriodPlanner, in the order of analyze.go getFunctionOrder.         *)
+(*                                                                                                             *)
+(* What is NOT modelled (decided by the binding with concrete strings): the quoting of LIKE patterns in        *)
+(* doLike, the quoting of string literals, regular expression syntax.                                          *)
 (***************************************************************************************************************)
 EXTENDS LogQLSem
 
@@ -152,7 +161,7 @@ SqlPipe(p, i, e, lbls, lj, db) ==
          IN  IF st.k = "lf"
              THEN IF SqlLineHolds(st, e) THEN SqlPipe(p, i + 1, e, lb, lj, db) ELSE [ok |-> FALSE, lbls |-> lb]
              ELSE IF st.k = "lbl"
-             THEN IF Simple(p, i) \/ TreeSql(st.tree, IF RenewAfter(p, i) THEN lb ELSE BlockFinal(p, i + 1, e, lb))
+             THEN IF Simple(p, i) \/ TreeSql(st.tree, BlockFinal(p, i + 1, e, lb))
                   THEN SqlPipe(p, i + 1, e, lb, lj, db)
                   ELSE [ok |-> FALSE, lbls |-> lb]
              ELSE SqlPipe(p, i + 1, e, SqlStageLabels(st, e, lb), lj, db)
@@ -253,8 +262,16 @@ MainRows(q, db, pp) ==
     LET fps == ApplySimple(FpSel(q.m, db), pp, 1, db)
     IN  {i \in DOMAIN db : /\ db[i].t >= FixFrom(q) /\ db[i].t < FixTo(q) /\ TypeIn(db[i].ty) /\ db[i].s \in fps
                            /\ MRow(pp, db, i).ok}
-(* fingerprint of a sample row: planner_parser.go recomputes it from the labels alias; planner_drop.go does not *)
-RowFp(pp, db, i) == IF HasParser(pp) THEN MRow(pp, db, i).lbls ELSE StreamLbls(db[i].s)
+(* fingerprint of a sample row: planner_parser.go recomputes it from the labels alias of the parser's SELECT     *)
+(* block (which MainRenewPlanner closes right after the parser); later stages (planner_drop.go) do not touch it  *)
+RECURSIVE LastParser(_, _)
+LastParser(p, i) == IF i = 0 THEN 0 ELSE IF IsParser(p[i]) THEN i ELSE LastParser(p, i - 1)
+RowFp(pp, db, i) ==
+    IF HasParser(pp)
+    THEN LET k == LastParser(pp, Len(pp))
+             pre == SubSeq(pp, 1, IF k < Len(pp) /\ ~RenewAfter(pp, k) THEN Len(pp) ELSE k)
+         IN  SqlPipe(pre, 1, db[i], NoLabels, LabelsJoinIdx(pp), db).lbls
+    ELSE StreamLbls(db[i].s)
 
 (* planner_lra.go / planner_unwrap_function.go (after planner_by_without.go processSimple for the function's    *)
 (* own by / without: fingerprint = cityHash64(labels) of the filtered map)                                      *)
@@ -355,9 +372,14 @@ FixPeriodSeries(q, db, rows) ==
                         /\ i <= (IF idxTo(r) >= L THEN L - 1 ELSE idxTo(r))
         at(f, i) == {r \in nz : r.fp = f /\ covers(r, i)}
         last(f, i) == CHOOSE r \in at(f, i) : \A x \in at(f, i) : x.ts <= r.ts
+        (* when the last row is one topk may or may not keep, the row before it may show through *)
+        prev(f, i) == {r \in at(f, i) : r # last(f, i) /\ \A x \in at(f, i) \ {last(f, i)} : x.ts <= r.ts}
         lbl(f) == FinalLabels(CHOOSE r \in nz : r.fp = f /\ \A x \in nz : x.fp = f => r.ts <= x.ts, db)
+        idxs(f) == {j \in 0..(L - 1) : at(f, j) # {}}
     IN  {s \in {[lbls |-> lbl(f),
-                 pts |-> {[t |-> q.from + i * S, v |-> last(f, i).v, opt |-> last(f, i).opt] : i \in {j \in 0..(L - 1) : at(f, j) # {}}}] : f \in fps} :
+                 pts |-> {[t |-> q.from + i * S, v |-> last(f, i).v, opt |-> last(f, i).opt] : i \in idxs(f)}
+                         \cup UNION {{[t |-> q.from + i * S, v |-> r.v, opt |-> TRUE] : r \in IF last(f, i).opt THEN prev(f, i) ELSE {}} : i \in idxs(f)}] :
+                    f \in fps} :
             s.pts # {}}
 
 PlanMetric(q, db) ==
